@@ -927,7 +927,7 @@ class C01(fw.Prop):
         # val.Right / val.Some / val.None_; "sumconst" makes such constants frequent.  Every second program is inside
         # the extended builder model, whose constant comes from the list-built value: `corr` ties the two
         os_roots = ["dfg", "dfg", "loop", "module", "cond", "dfg", "cfg", "tdfg", "func", "dfg"]
-        for i in range(60 if tier == "quick" else 700):
+        for i in range(60 if tier == "quick" else 500):
             allow = (["nested", "cond", "loop", "order", "md", "insert"] if i % 2 == 0 and os_roots[i % 10] in ("dfg", "loop", "cond")
                      else ["nested", "cond", "loop", "cfg", "call", "order", "md", "insert", "fnval", "poly", "localfn"])
             cases.append({"seed": rng.randrange(1 << 30), "root": os_roots[i % 10], "oneshot": rng.randrange(1 << 30),
